@@ -429,7 +429,14 @@ func runConvertWrapper(rr *RuleRun) {
 	okMarked := false
 	why := "the first statement of the wrapper is not `if in.IsMarked()`"
 	if len(lit.Body.List) > 0 {
-		if ifs, ok := lit.Body.List[0].(*ast.IfStmt); ok && ifs.Init == nil {
+		first, _ := lit.Body.List[0].(*ast.IfStmt)
+		// the same chain written as a tagless switch: its first case is the first test
+		if sw, ok := lit.Body.List[0].(*ast.SwitchStmt); ok && sw.Tag == nil && sw.Init == nil && len(sw.Body.List) > 0 {
+			if cc, ok := sw.Body.List[0].(*ast.CaseClause); ok && len(cc.List) == 1 {
+				first = &ast.IfStmt{If: cc.Pos(), Cond: cc.List[0], Body: &ast.BlockStmt{Lbrace: cc.Colon, List: cc.Body, Rbrace: cc.End()}}
+			}
+		}
+		if ifs := first; ifs != nil && ifs.Init == nil {
 			if call, ok := ast.Unparen(ifs.Cond).(*ast.CallExpr); ok && isCall(info, call, "cty.Value.IsMarked", "cty.Value.ContainsMarked") && objOf(info, call.Fun.(*ast.SelectorExpr).X) == in {
 				okMarked, why = checkMarkedBranch(info, ifs, in, wrapperVar)
 			}
@@ -477,10 +484,19 @@ func runConvertWrapper(rr *RuleRun) {
 	// 3. the dynamic pass-through precedes the unknown/null handling
 	var dynRet, unkSink ast.Node
 	inspectNoLit(lit.Body, func(nd ast.Node) bool {
+		isDynTest := func(e ast.Expr) bool {
+			be, ok := ast.Unparen(e).(*ast.BinaryExpr)
+			return ok && be.Op == token.EQL && (kindOfTypeExpr(info, be.Y) == "Dynamic" || kindOfTypeExpr(info, be.X) == "Dynamic")
+		}
 		switch x := nd.(type) {
 		case *ast.IfStmt:
-			if be, ok := ast.Unparen(x.Cond).(*ast.BinaryExpr); ok && be.Op == token.EQL && (kindOfTypeExpr(info, be.Y) == "Dynamic" || kindOfTypeExpr(info, be.X) == "Dynamic") && dynRet == nil {
+			if isDynTest(x.Cond) && dynRet == nil {
 				dynRet = x.Cond
+			}
+		case *ast.CaseClause:
+			// a case of a tagless switch
+			if sw, ok := c.Parent(c.Parent(x)).(*ast.SwitchStmt); ok && sw.Tag == nil && len(x.List) == 1 && isDynTest(x.List[0]) && dynRet == nil {
+				dynRet = x.List[0]
 			}
 		case *ast.CallExpr:
 			if isCall(info, x, "cty/convert.prepareUnknownResult", "cty.NullVal") && unkSink == nil {
